@@ -538,6 +538,50 @@ func streamParse(o *Out, r *rand.Rand, n int, thorough bool) {
 			o.Fail(Failure{Oracle: "string-literal", Key: "literal-raw-string", Input: raw, Detail: fmt.Sprintf("expected %q, got %q", raw, v)})
 		}
 	}
+	// a comment is a blank: the tree of an expression with block comments in it is the tree of the expression without them
+	// (`/*/` opens a comment, it is not a complete one)
+	for _, c := range [][2]string{{"8 /*/ - 2 /*/ - 3", "8 - 3"}, {"\"a\" + /*/ \"b\" + /*/ \"c\"", "\"a\" + \"c\""}, {"2 /*/ * 100 */ + 1", "2 + 1"}, {"1 /**/ + /***/ 2", "1 + 2"},
+		{"a /* x */ * /* y */ b - c", "a * b - c"}, {"f(/*/ 1, /*/ 2)", "f(2)"}, {"[1, /*/*/ 2]", "[1, 2]"}, {"a = 1 /*//*/ + 2", "a = 1 + 2"}, {"x /* /* */ - y", "x - y"}, {"1 // + 2\n+ 3", "1\n+ 3"}, {"1 # + 2\n- 3", "1\n- 3"}} {
+		o.Sum.Evaluations++
+		o.Sum.Hist["spelling:comments"]++
+		got, err1 := parser.ParseSrc(c[0])
+		want, err2 := parser.ParseSrc(c[1])
+		if err2 != nil {
+			continue
+		}
+		if err1 != nil {
+			o.Fail(Failure{Oracle: "spelling-parses", Key: "parse-error:comments", Input: c[0], Detail: err1.Error()})
+			continue
+		}
+		if astser.Prog(got) != astser.Prog(want) {
+			o.Fail(Failure{Oracle: "tree-as-spelled", Key: "parse-tree:comments", Input: c[0], Detail: fmt.Sprintf("without the comments (%q) the tree is %s\nwith them it is %s", c[1], astser.Prog(want), astser.Prog(got))})
+		}
+	}
+	// blanks, tabs and comments between a built-in word and its parenthesis change nothing: the tree is the tree of the tight spelling
+	for _, tight := range []string{"len(a) - 1 * 2", "-len(a)", "3 in [len(a)]", "*new(int64) + 1", "make(int64) + 1", "make([]int64, 2)[0]", "import(\"strings\")", "delete(m, \"k\")", "close(c)",
+		"x = len(a) + len(b)", "f(len(a), make(map[string]int64))", "if len(a) > 0 { delete(m) }", "make(type T, 1)", "len(make([]int64, len(a)))"} {
+		want, err := parser.ParseSrc(tight)
+		if err != nil {
+			o.Fail(Failure{Oracle: "spelling-parses", Key: "parse-error:builtin-tight", Input: tight, Detail: err.Error()})
+			continue
+		}
+		for _, gap := range []string{" ", "\t", "  ", " /* c */ ", "/**/"} {
+			loose := tight
+			for _, w := range []string{"len", "new", "make", "import", "delete", "close"} {
+				loose = strings.ReplaceAll(loose, w+"(", w+gap+"(")
+			}
+			o.Sum.Evaluations++
+			o.Sum.Hist["spelling:builtin-gap"]++
+			got, err := parser.ParseSrc(loose)
+			if err != nil {
+				o.Fail(Failure{Oracle: "spelling-parses", Key: "parse-error:builtin-gap", Input: loose, Detail: err.Error()})
+				continue
+			}
+			if astser.Prog(got) != astser.Prog(want) {
+				o.Fail(Failure{Oracle: "tree-as-spelled", Key: "parse-tree:builtin-gap", Input: loose, Detail: fmt.Sprintf("tight spelling %q gives %s\nthis spelling gives %s", tight, astser.Prog(want), astser.Prog(got))})
+			}
+		}
+	}
 	// a raw string denotes exactly the bytes between the back quotes - CR LF, a lone CR, a byte order mark included;
 	// and a file that starts with a byte order mark is not silently accepted as if it did not
 	for _, raw := range []string{"a\r\nb", "one\r\ntwo\r\n", "\r", "a\rb", "\xef\xbb\xbfx", "a\n\r\nb", "\r\n", "tab\there", "q\"uote'", "\\n stays two characters"} {
